@@ -4,8 +4,8 @@ import fcntl, glob, hashlib, json, os, re, subprocess, sys, time
 ROOT = os.path.dirname(os.path.dirname(os.path.abspath(__file__)))
 REPO = os.environ.get("VERIF_REPO", "/repo")
 COQ = os.path.join(ROOT, "coq")
-BUILD = os.path.join(ROOT, "build")
-GEN = os.path.join(ROOT, "gen")
+BUILD = os.environ.get("VERIF_BUILD", os.path.join(ROOT, "build"))
+GEN = os.path.join(BUILD, "gen")
 REPLAYS = os.path.join(ROOT, "replays")
 EVID = os.path.join(ROOT, "evidence")
 
@@ -29,8 +29,9 @@ def sh(cmd, cwd=None, env=None, timeout=1200, inp=None):
 
 class Lock:
     def __init__(self, name):
-        os.makedirs(BUILD, exist_ok=True)
-        self.path = os.path.join(BUILD, name + ".lock")
+        d = os.path.join(ROOT, "build") if name.startswith(("coq", "oracle")) else BUILD
+        os.makedirs(d, exist_ok=True)
+        self.path = os.path.join(d, name + ".lock")
 
     def __enter__(self):
         self.f = open(self.path, "w")
@@ -158,26 +159,29 @@ def run_oracle(oid, text, timeout=900, args=None):
 
 
 # ---------------------------------------------------------------- Go harness
-def overlay_file(pkgs):
-    """write the -overlay JSON mapping harness/<pkg>/*.go into /repo/<pkgpath>/zz_verif_*"""
+def overlay_file(pkg, name, files):
+    """write the -overlay JSON mapping harness/<pkg>/<files> into /repo/<pkgpath>/zz_verif_*"""
     os.makedirs(BUILD, exist_ok=True)
     rep = {}
-    for pkg in pkgs:
-        for f in sorted(glob.glob(os.path.join(ROOT, "harness", pkg, "*.go"))):
-            rep[os.path.join(REPO, PKG_PATH[pkg], "zz_verif_" + os.path.basename(f))] = f
-    path = os.path.join(BUILD, "overlay_%s.json" % "_".join(pkgs))
+    for f in files:
+        src = f if os.path.isabs(f) else os.path.join(ROOT, "harness", pkg, f)
+        if not os.path.exists(src):
+            raise FileNotFoundError(src)
+        rep[os.path.join(REPO, PKG_PATH[pkg], "zz_verif_" + os.path.basename(src))] = src
+    path = os.path.join(BUILD, "overlay_%s.json" % name)
     with open(path, "w") as fh:
         json.dump({"Replace": rep}, fh, indent=1)
     return path
 
 
-def build_harness(pkg, race=False):
-    """compile /repo's package <pkg> together with the harness files into a test binary.
-    Always rebuilt from /repo's current working tree (Go's build cache keeps this quick)."""
-    name = pkg + ("_race" if race else "")
+def build_harness(pkg, pid, files, race=False):
+    """compile /repo's package <pkg> together with harness/<pkg>/common_test.go and <files>
+    into the test binary build/<pkg>_<pid>[_race].test. Always rebuilt from /repo's current
+    working tree (Go's build cache keeps this quick). Returns (ok, log, exe)."""
+    name = "%s_%s%s" % (pkg, pid, "_race" if race else "")
     out = os.path.join(BUILD, name + ".test")
     with Lock("go_" + name):
-        ov = overlay_file([pkg])
+        ov = overlay_file(pkg, name, ["common_test.go"] + [f for f in files if f != "common_test.go"])
         env = dict(GOENV)
         if race:
             env["CGO_ENABLED"] = "1"
@@ -189,12 +193,11 @@ def build_harness(pkg, race=False):
     return rc == 0, log, out
 
 
-def run_harness(pkg, test, request_text, timeout=600, race=False, extra_env=None, tag=""):
-    """run one harness test of the compiled binary on a request file; returns (rc, lines, log)"""
-    name = pkg + ("_race" if race else "")
-    exe = os.path.join(BUILD, name + ".test")
+def run_harness(exe, test, request_text, timeout=600, extra_env=None, tag="", cwd=None):
+    """run one harness test of a compiled test binary on a request file (one request per line);
+    the test writes one answer per line to $VERIF_OUT. returns (rc, answer lines, log)"""
     os.makedirs(GEN, exist_ok=True)
-    base = os.path.join(GEN, "%s_%s_%d%s" % (name, test, os.getpid(), tag))
+    base = os.path.join(GEN, "%s_%s_%d%s" % (os.path.basename(exe), test, os.getpid(), tag))
     with open(base + ".in", "w") as fh:
         fh.write(request_text)
     env = dict(GOENV, VERIF_IN=base + ".in", VERIF_OUT=base + ".out")
@@ -202,7 +205,7 @@ def run_harness(pkg, test, request_text, timeout=600, race=False, extra_env=None
     if os.path.exists(base + ".out"):
         os.remove(base + ".out")
     rc, log = sh([exe, "-test.run", "^" + test + "$", "-test.count=1", "-test.timeout", "%ds" % timeout],
-                 cwd=os.path.join(REPO, PKG_PATH[pkg]), env=env, timeout=timeout + 30)
+                 cwd=cwd or BUILD, env=env, timeout=timeout + 30)
     lines = []
     if os.path.exists(base + ".out"):
         lines = open(base + ".out").read().split("\n")
